@@ -1,10 +1,10 @@
 package checks
 
 import (
-	"reflect"
 	"fmt"
 	"math"
 	"math/big"
+	"reflect"
 	"strconv"
 	"strings"
 	"time"
